@@ -99,6 +99,8 @@ var c14Pairs = []c14pair{
 	{"flags", "set_prolog_flag(double_quotes, atom) .", "current_prolog_flag(double_quotes, F) ."},
 	{"flags-unknown", "set_prolog_flag(unknown, fail) .", "current_prolog_flag(unknown, F) ."},
 	{"char-conversion", "char_conversion(a, b) .", "findall(X, current_char_conversion(a, X), L) ."},
+	{"char-conversion-enumerated", "char_conversion(a, b), char_conversion(c, d), findall(X-Y, current_char_conversion(X, Y), _) .", "findall(X-Y, (current_char_conversion(X, Y), X \\== Y), L) ."},
+	{"char-conversion-reverse", "char_conversion(q, r), findall(X, current_char_conversion(X, r), _) .", "findall(X, current_char_conversion(X, r), L) ."},
 	{"streams", "open('%TMP%', write, _, [alias(myout)]) .", "findall(S, stream_property(S, alias(myout)), L), length(L, N) ."},
 	{"current-output", "open('%TMP%', write, S, []), set_output(S) .", "current_output(S), findall(A, stream_property(S, alias(A)), L) ."},
 	{"current-input", "open('%TMP%', write, S0, []), close(S0), open('%TMP%', read, S, []), set_input(S) .", "current_input(S), findall(A, stream_property(S, alias(A)), L) ."},
@@ -311,7 +313,7 @@ func runC14(outDir string, seed int64, tier string) {
 	}
 	os.Remove(tmp)
 
-	sum.Rule = "rounds of 2-8 interpreters, one goroutine each, created, loaded with a program from eight parameterised families (recursion on lists, hanoi with output, findall/setof, atom construction, assert/retract loops, copy_term/functor/univ, facts over fresh atoms, catch and arithmetic), queried and writing to their own output at the same time: answers and output compared with the same program run alone; 8 goroutines interning the same previously unseen atom at the same moment, directly and through Exec+query of their own interpreter; sequential NewAtom histories compared with the model; thirteen state changers (assertz, consult, op/3 twice, two flags, char_conversion, open with alias, set_output, set_input, retract) against observers in a second interpreter, sequentially and concurrently; the whole run is in a binary built with -race: any report of the race detector is a violation"
+	sum.Rule = "rounds of 2-8 interpreters, one goroutine each, created, loaded with a program from eight parameterised families (recursion on lists, hanoi with output, findall/setof, atom construction, assert/retract loops, copy_term/functor/univ, facts over fresh atoms, catch and arithmetic), queried and writing to their own output at the same time: answers and output compared with the same program run alone; 8 goroutines interning the same previously unseen atom at the same moment, directly and through Exec+query of their own interpreter; sequential NewAtom histories compared with the model; fifteen state changers (assertz, consult, op/3 twice, two flags, char_conversion set and then enumerated in both directions, open with alias, set_output, set_input, retract) against observers in a second interpreter, sequentially and concurrently; the whole run is in a binary built with -race: any report of the race detector is a violation"
 	header := "From Coq Require Import ZArith List String.\nFrom PV Require Import Model.Shared Model.SharedCheck.\nImport ListNotations.\nOpen Scope Z_scope.\nOpen Scope string_scope.\n"
 	writeCases(filepath.Join(outDir, "cases_atoms.v"), header, "acase", "check_atoms", cases)
 	sum.CaseFiles = append(sum.CaseFiles, "cases_atoms.v")
